@@ -1,24 +1,3 @@
-"""C20 -- domains and factors index consistently and reject ill-shaped bindings."""
-from vf import core
-from props._common import add_bounded, add_pyvc
-
-FILES = ["graph.py", "domains.py"]
-
-
-def run_obligations(ctx):
-    rep = core.Report(property_id="C20", level="other")
-    add_pyvc(rep, ctx, "C20", FILES)
-    return rep
-
-
-def run(ctx):
-    rep = run_obligations(ctx)
-    rep.explanation = ("Contracts on the real methods of fggs/domains.py (numberize/denumberize mutually inverse under the "
-                       "representation invariant that __init__ establishes, contains, equality by content) and on "
-                       "add_domain / add_factor / shape of fggs/fggs.py (raises iff, unchanged on raise), discharged by z3. "
-                       "FiniteFactor (torch tensors, PatternedTensor shapes, apply) is outside the VC generator's reach: "
-                       "bounded stand-in, reported separately.")
-    rep.assumptions.append("C20: Domain and Factor objects bound to labels are opaque values with an equivalence == "
-                           "(proved for FiniteDomain/RangeDomain separately); Factor.arity = len(Factor.domains)")
-    add_bounded(rep, ctx, "C20")
-    return rep
+"""C20 -- see props/_common.SPEC and DESIGN.md section 5."""
+from props._common import make
+run, run_obligations = make("C20")
